@@ -226,6 +226,12 @@ private theorem mem_fallback_groups {cl : Cluster} {cfg : Config} {rq : Request}
   rw [fallback_eq_dedup] at h
   exact (describes_mem (groups_described cl cfg rq ρ) t).mp (mem_dedupFrom h).1
 
+/-- Shape of a target of `fallback`: shard-less, or carrying `with_computed_shard` of its node. -/
+theorem fallback_target_shape {cl : Cluster} {cfg : Config} {rq : Request} {ρ : RhoFb} {t : Target}
+    (h : t ∈ fallback cl cfg rq ρ) : t.2 = none ∨ t.2 = some (cl.sh t.1.id) := by
+  obtain ⟨bp, _, h1, _⟩ := mem_fallback_groups h
+  rw [h1]; exact mk_shardOK cl bp.1 _
+
 /-! ### properties of `fallback` -/
 
 /-- No host id twice in what `fallback` yields. -/
